@@ -87,8 +87,8 @@ PROPS.update({
                          "thorough": "DEEP on every binade, far digit out to 10^6"},
         assumptions=ASSUME_EXACT),
     "C07": dict(
-        sub="c07", cfgs=FIVE, profiles=["release", "dbg"], rule=VALUE_RULE + " Only inputs whose exact value is below 2^-1021 / 2^-125, at or above 2^1023 / 2^127, zero, or whose exponent argument exceeds 400 in magnitude are judged here.",
-        exhaustive_over={"quick": "8 IEEE thresholds per format at every prefix length (truncated and +1) with compensating zeros up to 5000; ~2400 exponent classes x 30 digit shapes incl. i32::MIN/MAX; SHORT(3) and SEAM in the end windows; 13 end binades x patterns; 1/16 of the f32 subnormal and top binade midpoints",
+        sub="c07", cfgs=FIVE, profiles=["release", "dbg"], hard=True, rule=VALUE_RULE + " Only inputs whose exact value is below 2^-1021 / 2^-125, at or above 2^1023 / 2^127, zero, or whose exponent argument exceeds 400 in magnitude are judged here.",
+        exhaustive_over={"quick": "8 IEEE thresholds per format at every prefix length (truncated and +1) with compensating zeros up to 5000; ~2400 exponent classes x 30 digit shapes incl. i32::MIN/MAX; SHORT(3) and SEAM in the end windows; 13 end binades x patterns; 1/16 of the f32 subnormal and top binade midpoints; HARD(q) and the structural digit strings whose value lies in the end ranges",
                          "thorough": "compensation up to 10^5, SHORT(4), complete f32 subnormal and top binades"},
         assumptions=ASSUME_EXACT),
     "C09": dict(
@@ -103,7 +103,7 @@ PROPS.update({
         assumptions=["equality of the spelled values is re-asserted exactly by the harness"]),
     "C15": dict(
         sub="c15", cfgs=["D", "C", "N", "NC", "A"], hard=True, post=_c15_post,
-        rule="a counting global allocator with a thread-local counter is read before and after every parse_float call - through slice iterators and, for inputs of more than 19 digits, also through Chain+Filter iterators (inexact size hint) - and the delta must be 0 in every configuration without `alloc`. Monitor validity: the `alloc` configuration must be seen allocating. Non-trivial: more than 19 digits (big-integer or truncated path).",
+        rule="a counting global allocator with a thread-local counter is read before and after every parse_float call - through slice iterators and, for inputs of more than 19 digits, also through Chain+Filter iterators (inexact size hint) and through Flatten iterators (no upper size bound) - and the delta must be 0 in every configuration without `alloc`. Monitor validity: the `alloc` configuration must be seen allocating. Non-trivial: more than 19 digits (big-integer or truncated path).",
         exhaustive_over={"quick": "SHORT(3), SEAM, EXTREME, BOUNDARY-LIGHT (every 2nd binade), DEEP, thresholds, LONG(10^5), HARD(q): every path class incl. pow >= 135 / long_mul inputs", "thorough": "every binade"},
         assumptions=["the counter sees every allocation made through the global allocator on the calling thread"]),
 })
@@ -135,13 +135,13 @@ PROPS.update({
     "C17": dict(
         sub="c17", cfgs=["D", "C", "A", "N", "NC"],
         rule="for every bit pattern: to_bits(from_bits) lossless, is_denormal == (exponent field == 0), mantissa()/exponent() equal the canonical IEEE decomposition, slow::b / bh follow from it, extended_to_float packs (biased exponent, fraction) into exactly those fields. Complete for f32.",
-        exhaustive_over={"quick": "ALL 2^32 f32 bit patterns; f64: 2048 exponent fields x 2 signs x 156 fraction patterns + complete low-20-bit sweeps of exponent fields 0, 1, 2046, 2047 both signs",
+        exhaustive_over={"quick": "ALL 2^32 f32 bit patterns; f64: 2048 exponent fields x 2 signs x 156 fraction patterns + complete low-20-bit sweeps of exponent fields 0, 1, 2046, 2047 both signs; every pair of fraction bits and ~400 fractions whose high 20 and low 32 bits are related (equal, complementary, shifted) in every exponent field; complete sweeps of the low 16 and high 16 fraction bits in every 8th exponent field and the three at either end",
                          "thorough": "plus 4096 seed-rotated fraction patterns and complete sweeps of the low 16 and the high 16 fraction bits in every f64 exponent field, both signs"},
         assumptions=["run in five configurations, so a cfg-gated arm in a helper is seen; NA / CA / NCA are assumed to behave as their alloc-free counterparts for these helpers"]),
     "C18": dict(
         sub="c18", cfgs=["D", "C"],
         rule="round::<F> with the nearest-even closure (as Bellerophon uses it), the nearest-even-with-sticky closure (big-integer path) and round_down is executed for every biased exponent of the callers' range on significands built from kept-bits x dropped-bits patterns; the packed result is compared with an exact u128 reference rounding. Mask helpers for every width (complete).",
-        exhaustive_over={"quick": "f64 exponents [-63,2100], f32 [-63,320] (every subnormal shift 1..64, the normal shift, every overflow case) x ~50 kept patterns x 9 dropped patterns x 3 closures; lower_n_mask/lower_n_halfway/nth_bit for 0..=64",
+        exhaustive_over={"quick": "f64 exponents [-63,2100], f32 [-63,320] (every subnormal shift 1..64, the normal shift, every overflow case) x ~50 kept patterns x 9 dropped patterns x 3 closures; lower_n_mask/lower_n_halfway/nth_bit for 0..=64; plus, on 8 kept patterns, one dropped bit at every position alone / on top of half / off half / off all-ones (every partial sticky test is wrong for one of them)",
                          "thorough": "every kept-bit position, every pattern of the low 6 kept bits, dense 64-wide windows of dropped bits around half and at both ends (568 M cases)"},
         assumptions=["packed bits are compared, never (mant, exp) pairs"]),
 })
